@@ -70,6 +70,7 @@ class Reach:
         if not lines:
             self.missing.append(loc.name)
             self.ctx.note(f"locator_missing: {loc.name}")
+            self.ctx.hit("locator_missing:" + loc.name)      # the code was refactored: reach evidence falls back to black-box classes
             return
         if index is not None:
             lines = [lines[index]] if -len(lines) <= index < len(lines) else []
